@@ -1265,7 +1265,7 @@ func c01Backfill(c *core.Ctx, r *core.Report) {
 			return false
 		}
 		for _, o := range c.Origins(call.Call.Args[1], 0) {
-			if o.Kind == "global" && o.Obj != nil && o.Obj.Name() == "VALTYPE_ENC_BACKFILL" {
+			if o.Kind == "global" && o.Obj != nil && c.BaseName(o.Obj) == "VALTYPE_ENC_BACKFILL" {
 				return true
 			}
 		}
